@@ -5,6 +5,7 @@ import BeffVerif.Props.C03Parse
 import BeffVerif.Props.C03Declared
 import BeffVerif.Props.C03Idem
 import BeffVerif.Props.C03Order
+import BeffVerif.Props.Consts
 open BeffVerif.C03
 #print axioms safeParse_success_iff_validate
 #print axioms safeParse_failure_iff_not_validate
@@ -29,3 +30,4 @@ open BeffVerif.C03
 #print axioms BeffVerif.C03S.rebuild
 #print axioms BeffVerif.C03S.obj_fold_nodup
 #print axioms BeffVerif.C03S.key_order_only
+#print axioms BeffVerif.Consts.deepmerge_refused_keys_current
